@@ -1,5 +1,7 @@
 package safehtml
 
+import "encoding/json"
+
 // C17: ScriptFromDataAndConstant embeds data as an inert, round-tripping JSON literal
 // (reduced scope: data of Go type string).
 
@@ -79,6 +81,49 @@ func vHarness_C17_string() {
 
 func vProbe_C17_script(a []string) string {
 	s, err := ScriptFromDataAndConstant(stringConstant(a[0]), a[1], "f(x)")
+	if err != nil {
+		return "err"
+	}
+	return "ok:" + s.String()
+}
+
+// refNoHTMLSignificant: j contains none of < > & and neither U+2028 nor U+2029 (raw).
+func refNoHTMLSignificant(j string) bool {
+	ok := true
+	for i := 0; i < len(j); i++ {
+		b := j[i]
+		if b == '<' || b == '>' || b == '&' {
+			ok = false
+		}
+		if b == 0xE2 && i+2 < len(j) && j[i+1] == 0x80 && (j[i+2] == 0xA8 || j[i+2] == 0xA9) {
+			ok = false
+		}
+	}
+	return ok
+}
+
+// data that brings its own JSON text (json.RawMessage, as any json.Marshaler may): the bytes
+// are validated and compacted by the real encoding/json.appendCompact (stdlib SSA)
+func vHarness_C17_raw() {
+	raw := vNondetBytes("raw", vParam("n"))
+	script := "f(x)"
+	s, err := ScriptFromDataAndConstant("xy", json.RawMessage(raw), stringConstant(script))
+	if err != nil {
+		vReach("rejected")
+		vAssert(s.String() == "", "a failure returns the zero Script")
+		return
+	}
+	vReach("accepted")
+	out := s.String()
+	pre := "var xy = "
+	post := ";\n" + script
+	vAssert(len(out) >= len(pre)+len(post)+1 && out[:len(pre)] == pre && out[len(out)-len(post):] == post, "the result is var name = J;\\nscript")
+	j := out[len(pre) : len(out)-len(post)]
+	vAssert(refNoHTMLSignificant(j), "the JSON text of marshaler-provided data contains a raw < > & U+2028 or U+2029")
+}
+
+func vProbe_C17_raw(a []string) string {
+	s, err := ScriptFromDataAndConstant("xy", json.RawMessage(a[0]), "f(x)")
 	if err != nil {
 		return "err"
 	}
